@@ -143,6 +143,59 @@ def rand_result(rng):
     return tt.experiment.ExperimentResult(res)
 
 
+def view_fails(obj, dicts):
+    """to_arrow / to_pandas / to_polars expose the rows of to_dicts: same order, every key of every row present with its
+    value (a key absent from a row is null / NaN there). Keys whose values are not of one kind are left out (the
+    property's quantifier: value types homogeneous per key)."""
+    keys = list(dict.fromkeys(k for d in dicts for k in d))
+    kind = lambda v: "num" if isinstance(v, (int, float)) and not isinstance(v, bool) else type(v).__name__
+    homog = [k for k in keys if len({kind(d[k]) for d in dicts if d.get(k) is not None}) <= 1]
+    fails = []
+
+    def same(a, b):
+        if b is None:
+            return a is None or (isinstance(a, float) and a != a)
+        if isinstance(b, float) and b != b:
+            return a is None or (isinstance(a, float) and a != a)
+        if isinstance(b, tuple):
+            return list(a) == list(b) if a is not None else False
+        return a == b
+    if not dicts:
+        return fails
+    views = []
+    try:
+        views.append(("to_arrow", obj.to_arrow().select([k for k in homog if k in obj.to_arrow().column_names]).to_pylist(),
+                      obj.to_arrow().column_names))
+    except Exception as e:  # noqa: BLE001
+        if set(homog) == set(keys):
+            fails.append(f"to_arrow raised: {type(e).__name__}: {e}")
+    try:
+        pdf = obj.to_pandas()
+        views.append(("to_pandas", pdf.to_dict("records"), list(pdf.columns)))
+    except Exception as e:  # noqa: BLE001
+        if set(homog) == set(keys):
+            fails.append(f"to_pandas raised: {type(e).__name__}: {e}")
+    try:
+        pl_ = obj.to_polars()
+        views.append(("to_polars", pl_.to_dicts(), list(pl_.columns)))
+    except Exception as e:  # noqa: BLE001
+        if set(homog) == set(keys):
+            fails.append(f"to_polars raised: {type(e).__name__}: {e}")
+    for view, rws, cols in views:
+        if len(rws) != len(dicts):
+            fails.append(f"{view} has {len(rws)} rows, to_dicts has {len(dicts)}")
+            continue
+        missing = [k for k in homog if k not in cols]
+        if missing:
+            fails.append(f"{view} lacks columns {missing} that rows of to_dicts have")
+        for i, (r, d) in enumerate(zip(rws, dicts)):
+            for k in homog:
+                if k in cols and not same(r.get(k), d.get(k)):
+                    fails.append(f"{view} row {i} key {k!r}: {r.get(k)!r} but to_dicts has {d.get(k)!r}")
+                    break
+    return fails
+
+
 def _tables(ctx):
     import tea_tasting as tt
     cases, terms, expect = [], [], []
@@ -184,17 +237,22 @@ def _tables(ctx):
                                    "input": {"rows": rows}})
         if any(("<" in c or ">" in c) for c in cells):
             ctx.violations.append({"what": "to_html cell contains a raw angle bracket", "detail": expect[-1][:500], "input": {"rows": rows}})
-        try:
-            homog = all(len({type(d.get(k)) for d in dicts if d.get(k) is not None} - {int, float}) <= 1 for k in dicts[0])
-            if homog:
-                ar = obj.to_arrow().to_pylist()
-                pdd = obj.to_pandas().to_dict("records")
-                pld = obj.to_polars().to_dicts()
-                for view, rws in (("to_arrow", ar), ("to_pandas", pdd), ("to_polars", pld)):
-                    if len(rws) != len(dicts) or [r.get("metric") for r in rws] != [d.get("metric") for d in dicts]:
-                        ctx.violations.append({"what": f"{view} exposes different rows / order than to_dicts", "input": {"rows": rows}})
-        except Exception as e:
-            ctx.count("dataframe_conversion_skipped:" + type(e).__name__)
+        for f in view_fails(obj, dicts):
+            ctx.violations.append({"what": f.split(":")[0], "detail": f, "input": {"rows": rows, "dicts": repr(dicts)[:1500]}})
+        # a caller-supplied formatter is what every rendered view shows
+        fmt = lambda d, k: f"<{k}|" + repr(d.get(k))[:9] + ">"
+        want = [[fmt(d, k) for k in ks] for d in dicts]
+        got_pretty = [[d[k] for k in ks] for d in obj.to_pretty_dicts(keys, fmt)]
+        got_html = [html.unescape(c) for c in re.findall(r"<td>(.*?)</td>", obj.to_html(keys, fmt), re.S)]
+        got_str = [ln.split() for ln in obj.to_string(keys, fmt).split("\n")[1:]]
+        if got_pretty != want:
+            ctx.violations.append({"what": "to_pretty_dicts does not use the caller's formatter", "input": {"rows": rows}})
+        if got_html != [c for r in want for c in r]:
+            ctx.violations.append({"what": "to_html does not show the cells of the caller's formatter", "detail": str(got_html[:6]),
+                                   "input": {"rows": rows}})
+        if [c for r in got_str for c in r] != [x for r in want for c in r for x in c.split()]:
+            ctx.violations.append({"what": "to_string does not show the cells of the caller's formatter", "detail": str(got_str[:3]),
+                                   "input": {"rows": rows}})
     res, errs = H.coq_eval_shards("c16t", HEADER, terms)
     for e in errs:
         ctx.oblige(False, "correspondence", "vm_compute evaluation (tables)", e)
